@@ -144,6 +144,10 @@ type Run struct {
 	NegFailing []string
 	NegTotal   int
 	NegRan     bool
+	// C08 bounded fault-injection stand-in
+	FFailing []string
+	FTotal   int
+	FRan     bool
 	// C13 bounded dispose stand-in
 	DFailing []string
 	DTotal   int
@@ -282,6 +286,14 @@ func verifyRun(opts *RunOpts) (*Run, error) {
 			run.ExtraNotes = append(run.ExtraNotes, "bounded negotiation stand-in did not run: "+err.Error())
 		} else {
 			run.NegFailing, run.NegTotal, run.NegRan = f, total, true
+		}
+	}
+	if opts.Prop == "C08" {
+		f, total, err := runBoundedFaults(opts)
+		if err != nil {
+			run.ExtraNotes = append(run.ExtraNotes, "bounded fault stand-in did not run: "+err.Error())
+		} else {
+			run.FFailing, run.FTotal, run.FRan = f, total, true
 		}
 	}
 	if opts.Prop == "C13" {
